@@ -153,60 +153,87 @@ func c08Modify(p *Prog, r *Report) {
 	r.Floor("C08.R2", got, 3, "protocol fields set by the request modifier")
 }
 
-// c08Source: u is the result of the URL chooser: ParseRequestURI(req.RequestURI) on success when non-empty, else req.URL.
+// c08Source: the URL the path/query are copied from is ParseRequestURI(req.RequestURI) on its
+// success edge (RequestURI non-empty) and req.URL otherwise — whether that choice is made by a
+// helper function or inline.
 func c08Source(p *Prog, r *Report, mod *ssa.Function, u ssa.Value) {
-	c, ok := stripConv(u).(*ssa.Call)
-	if !ok || c.Common().StaticCallee() == nil || !p.InModule(c.Common().StaticCallee()) {
-		r.Undecided("C08.R1", "forward: source of the outgoing path/query", p.FuncPos(mod), "the URL the path is copied from is not the result of a module helper")
-		return
+	type origin struct {
+		v     ssa.Value
+		fn    *ssa.Function
+		req   ssa.Value
+		at    ssa.Instruction // instruction whose reachability represents "this origin is used"
+		label string
 	}
-	ch := c.Common().StaticCallee()
-	r.Fn(FName(ch))
-	cn := "forward." + ch.Name()
-	req := ch.Params[0]
-	var parse *ssa.Call
-	for _, x := range Calls(ch) {
-		if call, ok := x.(*ssa.Call); ok {
-			if o := calleeObj(call.Common()); o != nil && o.Pkg() != nil && o.Pkg().Path() == "net/url" {
-				parse = call
-			}
+	var origins []origin
+	where := "forward." + mod.Name()
+	if c, ok := stripConv(u).(*ssa.Call); ok && c.Common().StaticCallee() != nil && p.InModule(c.Common().StaticCallee()) {
+		ch := c.Common().StaticCallee()
+		r.Fn(FName(ch))
+		where = "forward." + ch.Name()
+		if len(c.Common().Args) < 1 || stripConv(c.Common().Args[0]) != ssa.Value(mod.Params[0]) {
+			r.Fail("C08.R1", where+": applied to the outgoing request", p.InstrPos(c), "the URL chooser is not applied to the request being rewritten")
+			return
 		}
-	}
-	okParse := false
-	why := "the original request line is not parsed"
-	if parse != nil {
-		why = "the request target is parsed with " + objName(calleeObj(parse.Common())) + " instead of url.ParseRequestURI(req.RequestURI)"
-		if ccIs(parse.Common(), "net/url", "ParseRequestURI") {
-			if base, ok := loadPath(parse.Common().Args[0], "RequestURI"); ok && base == ssa.Value(req) {
-				okParse = true
-			}
+		for _, ret := range Returns(ch) {
+			origins = append(origins, origin{stripConv(ReturnOperand(ret, 0)), ch, ch.Params[0], ret, "return"})
 		}
-	}
-	r.Check(okParse, "C08.R1", cn+": request target parsed verbatim with url.ParseRequestURI(req.RequestURI)", p.FuncPos(ch), "ok", why+" (reference resolution normalises dot segments and treats a leading // as an authority)")
-	if !okParse {
-		return
-	}
-	// returns: parsed URL only on err == nil edge and RequestURI != "" edge; otherwise req.URL
-	okRet := true
-	nParsed := 0
-	for _, ret := range Returns(ch) {
-		v := stripConv(ReturnOperand(ret, 0))
-		if resultValue(parse, 0)(v) {
-			nParsed++
-			g := false
-			for _, t := range NilTests(ch, resultValue(parse, 1)) {
-				if OnlyViaEdge(ch, ret, t.Nil) {
-					g = true
+	} else {
+		var walk func(v ssa.Value, at ssa.Instruction, d int)
+		walk = func(v ssa.Value, at ssa.Instruction, d int) {
+			v = stripConv(v)
+			if ph, ok := v.(*ssa.Phi); ok && d < 4 {
+				for i, e := range ph.Edges {
+					pred := ph.Block().Preds[i]
+					walk(e, pred.Instrs[len(pred.Instrs)-1], d+1)
 				}
+				return
 			}
-			if !g {
-				okRet = false
+			origins = append(origins, origin{v, mod, mod.Params[0], at, "assignment"})
+		}
+		walk(u, nil, 0)
+	}
+	nParsed, nURL := 0, 0
+	okAll := true
+	why := ""
+	for _, o := range origins {
+		if base, ok := loadPath(o.v, "URL"); ok && base == o.req {
+			nURL++
+			continue
+		}
+		ex, isEx := o.v.(*ssa.Extract)
+		var call *ssa.Call
+		if isEx && ex.Index == 0 {
+			call, _ = ex.Tuple.(*ssa.Call)
+		}
+		if call == nil {
+			okAll, why = false, "one source of the outgoing path is neither req.URL nor the parsed request target ("+truncate(o.v.String(), 60)+")"
+			continue
+		}
+		if !ccIs(call.Common(), "net/url", "ParseRequestURI") {
+			name := "?"
+			if ob := calleeObj(call.Common()); ob != nil {
+				name = objName(ob)
 			}
-		} else if base, ok := loadPath(v, "URL"); !ok || base != ssa.Value(req) {
-			okRet = false
+			okAll, why = false, "the request target is parsed with "+name+" instead of url.ParseRequestURI(req.RequestURI) (reference resolution normalises dot segments and treats a leading // as an authority)"
+			continue
+		}
+		if base, ok := loadPath(call.Common().Args[0], "RequestURI"); !ok || base != o.req {
+			okAll, why = false, "ParseRequestURI is not applied to req.RequestURI"
+			continue
+		}
+		nParsed++
+		guard := false
+		for _, t := range NilTests(o.fn, resultValue(call, 1)) {
+			if o.at != nil && OnlyViaEdge(o.fn, o.at, t.Nil) {
+				guard = true
+			}
+		}
+		if !guard {
+			okAll, why = false, "the parsed URL is used without being on ParseRequestURI's err == nil edge"
 		}
 	}
-	r.Check(okRet && nParsed == 1, "C08.R1", cn+": parsed target on success, req.URL otherwise", p.FuncPos(ch), "the parsed URL is returned only on ParseRequestURI's err == nil edge; every other return is req.URL", "the chooser does not return the parsed request target exactly on the parse-success edge and req.URL otherwise")
+	r.Check(okAll && nParsed >= 1 && nURL >= 1, "C08.R1", where+": request target parsed verbatim with url.ParseRequestURI(req.RequestURI) on success, req.URL otherwise", p.FuncPos(mod),
+		fmt.Sprintf("%d origin(s): the parsed target on the parse-success edge, req.URL otherwise", len(origins)), why)
 }
 
 func c08Headers(p *Prog, r *Report) {
